@@ -27,6 +27,8 @@ type Unit struct {
 	Straddle int  `json:"straddle,omitempty"`
 	AF       *AF  `json:"af,omitempty"`   // content of the first packet's adaptation field (stuffing is added as needed)
 	Prio     bool `json:"prio,omitempty"` // transport_priority on the unit's packets
+	// MidPCR: packets after the first whose chunk leaves room for it carry a PCR too
+	MidPCR bool `json:"mid_pcr,omitempty"`
 }
 
 func (u *Unit) IsPES() bool { return u.PES != nil }
@@ -167,6 +169,8 @@ func BuildStream(si int, s *Stream) (pk [][]byte, meta []PktMeta, err error) {
 			var base *AF
 			if k == 0 {
 				base = u.AF
+			} else if u.MidPCR && 184-c >= 8 {
+				base = &AF{PCR: &Clock{Base: uint64(90000 + 3003*k + 17*u.Tag), Ext: uint16(k % 300)}}
 			}
 			if c < 184 || base != nil {
 				p.AFC = 3
@@ -240,4 +244,16 @@ func Join(pk [][]byte) []byte {
 		out = append(out, p...)
 	}
 	return out
+}
+
+// RestampPCR returns a copy of a packet whose PCR (if it carries one) has another value - what
+// a remultiplexer does to the duplicate of a packet (ISO 13818-1 2.4.3.3 allows exactly this
+// difference between a packet and its duplicate) - and whether there was a PCR.
+func RestampPCR(raw []byte) ([]byte, bool) {
+	if len(raw) < 12 || raw[3]&0x20 == 0 || raw[4] < 7 || raw[5]&0x10 == 0 {
+		return raw, false
+	}
+	c := append([]byte{}, raw...)
+	c[9] ^= 0x15 // bits of program_clock_reference_base
+	return c, true
 }
